@@ -5,6 +5,7 @@ UNITS = {
     'core_kernel': {'sources': ('core',), 'modes': ('F', 'D')},
     'round': {'sources': ('core', 'fpdec'), 'modes': ('F', 'D')},
     'add_sub': {'sources': ('core', 'fpdec'), 'modes': ('F', 'D')},
+    'cmp': {'sources': ('core', 'fpdec'), 'modes': ('F', 'D')},
     'checked_add_sub': {'sources': ('core', 'fpdec'), 'modes': ('F', 'D'), 'module': 'add_sub', 'builder': 'build_checked'},
 }
 
@@ -16,6 +17,14 @@ PROPS = {
         'title': 'Addition and subtraction are exact or signal overflow',
         'design_ref': 'DESIGN.md section 7 (C01)',
         'assumptions': ['R8: i128::from(uN) widening conversions (assume_specification)'],
+    },
+    'C08': {
+        'units': ['core_kernel', 'cmp'],
+        'title': 'Equality and ordering are by numeric value and form a total order',
+        'design_ref': 'DESIGN.md section 7 (C08)',
+        'assumptions': ['min/max/<,<=,>,>= are std default methods over cmp/partial_cmp (trusted std)',
+                        'reflexive/antisymmetric/transitive: spec-level lemmas over val_cmp (spec/order.rs), connected to the code through the by_value postconditions',
+                        'feature rkyv (ArchivedDecimal comparisons, archive round trip) is NOT covered by this check'],
     },
     'C05': {
         'units': ['core_kernel', 'round'],
